@@ -1,26 +1,86 @@
 from common import Rng
 
 CONFIG = dict(
-    claimed=False, na_reason="proofs in progress",
-    level_text="",
-    level_note="",
+    claimed=True,
+    level_text="Kernel-checked Lean theorems over a hand-written model of accept_connection / add_peer / apply_peer_group / "
+               "build_local_cap / peer_role / PeerCodec::negotiate / the effective send-max / negotiate_gr / negotiate_llgr / "
+               "IpNet::contains / force_down / the end of PeerSession::run and the gRPC enable-disable-delete-shutdown-reset "
+               "bodies: the accept decision (accept_iff), prefix containment = first mask bits (contains_iff_cover), "
+               "configured-or-inherited parameters incl. advertised capabilities (params_inherited[_dynamic]), role derivation, "
+               "mirror-image negotiation and feature-iff-both, send-max = codec add-path tx (S26), GR/LLGR symmetry, and the "
+               "dynamic-neighbour GC invariant over ALL histories; plus the master theorem that the C16 reference checker "
+               "(written from the property text) accepts every model run except two recorded open findings.  The model is "
+               "tied to the code by running the real accept_connection over real loopback sockets (127.x.y.z / ::1 sources), "
+               "the real PeerSession::run (the OPEN is read back from the wire), the real gRPC handlers, PeerFsm and "
+               "PeerCodec::negotiate on the same generated cases, diffing every observation, with the reference checker as "
+               "oracle on the real outputs.",
+    level_note="Trusted: Lean kernel; axioms propext/Classical.choice/Quot.sound; the hand-written model (checked only by the "
+               "correspondence stream); harness glue (case decoding, canonical ordering of hash-ordered capability lists, "
+               "the `consistent` flag for overlapping groups, extended-next-hop flag read through the encoder).  Modelled, "
+               "not verified: TTL / MD5 socket options; which of several overlapping dynamic groups the hash map yields "
+               "(history abandoned after checking the neighbour matches one of them); tokio scheduling (each session task "
+               "runs to its end inside one `disc` step); cases are assumed well-formed as the line parser guarantees "
+               "(octets < 256, masks in range in histories, confederation id != 0).",
     lean_modules=["Rbgp.Accept.Props"],
     theorems=[
+        "Rbgp.Accept.Props.check_run_ok",
+        "Rbgp.Accept.Props.accept_iff",
+        "Rbgp.Accept.Props.accept_iff_partial",
+        "Rbgp.Accept.Props.accept_iff_full_fails",
+        "Rbgp.Accept.Props.slot_is_connection",
         "Rbgp.Accept.Props.contains_iff_cover",
+        "Rbgp.Accept.Props.contains_other_family",
+        "Rbgp.Accept.Props.params_inherited",
+        "Rbgp.Accept.Props.params_inherited_dynamic",
+        "Rbgp.Accept.Props.role_derivation_spec",
         "Rbgp.Accept.Props.negotiate_mirror",
         "Rbgp.Accept.Props.feature_iff_both",
+        "Rbgp.Accept.Props.advertised_mode_unanimous",
         "Rbgp.Accept.Props.sendmax_agrees_with_codec",
         "Rbgp.Accept.Props.gr_negotiation_symmetric",
+        "Rbgp.Accept.Props.llgr_negotiation_symmetric",
+        "Rbgp.Accept.Props.llgr_symmetric_full_fails",
+        "Rbgp.Accept.Props.reach_inv",
+        "Rbgp.Accept.Props.dynamic_peer_gc",
+        "Rbgp.Accept.Props.dynamic_peer_removed_with_last_connection",
     ],
     harness=dict(kind="daemon", test="event::verif_event::c16::verif_main"),
     profiles=["debug"],
     n_quick=3000, n_thorough=120000, shards=12,
-    nontrivial_re=r"\(accept |t\)\)|\(ok t\)|\(gr \(|\(llgr \(",
-    rule="",
-    expect_tokens=[],
-    trusted_base=[],
-    modelled_not_verified=[],
-    assumptions=[],
+    nontrivial_re=r"\(accept |\(reject |t\)\)|\(ok t\)|\(gr \(|\(llgr \(|\(panic\)",
+    rule="four streams from one PRNG: (1) pairs of capability lists over a 2-family universe (+ an IPv4-VPN and an unknown "
+         "family): MP, add-path tuples with modes 0-3 and invalid 4/5/7/255, duplicates and conflicting tuples, add-path "
+         "without MP, ext-nexthop tuples with right/wrong AFIs, ext-message, 4-octet AS, GR (any flags/time, duplicate "
+         "families), LLGR (zero / non-zero times, duplicate families, several capabilities), unknown capabilities, with a "
+         "configured send-max; plus a systematic single-family add-path mode-pair sub-stream; (2) prefix/address pairs for "
+         "IPv4 and IPv6 with masks 0..len, out-of-range masks, bit flips at the mask boundary, host bits set in the prefix, "
+         "other address family; (3) histories: global AS, optional confederation, 0-3 peer groups (overlapping / "
+         "non-canonical / IPv6 dynamic prefixes, duplicate names), 0-3 configured neighbours (own vs inherited settings, "
+         "unknown group, duplicate address, admin-down), 1-14 operations connect(A|P) / disc / enable / disable / delete / "
+         "shutdown / reset over 6 colliding loopback addresses; (4) malformed lines (truncation, bad family, non-loopback "
+         "source, unknown op, out-of-range numbers).  Non-trivial = a connection was accepted or rejected, a family / GR / "
+         "LLGR was negotiated, a prefix matched, or contains panicked; distinct = distinct case line.",
+    expect_tokens=["(accept ", "(accept-amb ", "(reject 0)", "(disc (open ", "(disc (notif 6 2))", "(disc (notif 6 3))",
+                   "no-session", "(api ok)", "(api notfound)", "aborted", "rr-client", "rs-client", "confed", "ibgp", "ebgp",
+                   "(ok t)", "(ok f)", "(panic)", "(bad-case)", "(enh ", "(gr (", "(llgr (", " t t)", " t f)", " f t)",
+                   "(codec () ", "t t t)", "(some accept)", "(some reject)"],
+    trusted_base=["model Rbgp/Accept/Model.lean of daemon/src/event/mod.rs (accept_connection, add_peer, force_down, "
+                  "apply_disconnect + tail of PeerSession::run, negotiate_gr/llgr, peer_role), event/peer.rs (build, "
+                  "build_local_cap, apply_peer_group), event/grpc.rs (five handlers), fsm.rs (effective send-max), "
+                  "packet/src/bgp.rs (PeerCodec::negotiate, IpNet::contains)",
+                  "harness/daemon/c16.rs: builds PeerParams/PeerGroup/Global from the case, binds loopback sources, runs the "
+                  "real session task with the remote end closing after the first message; capability lists are compared "
+                  "after sorting their hash-ordered parts; the private extended_nexthop flag is read through the encoder",
+                  "Codec.caseOf? guarantees the well-formedness hypothesis CaseWF of check_run_ok (not proved)"],
+    modelled_not_verified=["TTL / GTSM / MD5 socket options set by accept_connection (neighbours are generated without them)",
+                           "FnvHashMap iteration order among overlapping dynamic groups (only 'the new neighbour matches "
+                           "one of the covering groups' is checked, then the history is abandoned)",
+                           "tokio scheduling: the session task is not started at accept time but run to completion inside the "
+                           "`disc` step, so a history is a sequence of atomic steps",
+                           "enable_active_connect (spawned retry loop; its connects are refused) and BFD / RTC / GR timers"],
+    assumptions=["cases are well-formed (CaseWF): octets < 256, dynamic-prefix masks within the address length in histories, "
+                 "confederation identifier != 0, configured neighbours are static",
+                 "loopback: 127.0.0.0/8 and ::1 are bindable source addresses on the test host"],
 )
 
 # ---------------------------------------------------------------- small colliding domains
